@@ -62,6 +62,8 @@ def run(ck):
     from slices import engine
     engine.two_invocations(ck, 'C02', n_quick=6, fail_p=0.6)
     inherited_outputs(ck)
+    from props import C05
+    C05.builder_correspondence(ck, d)
     incr.flush(ck)
     vf.sh(['rm', '-rf', d])
 
